@@ -75,11 +75,11 @@ theorem writeStmt_cursor {s : Seg.State} (inv : Seg.Inv s) {addr : Nat} {d : Byt
       subst hstep'
       rfl
 
-theorem runTask_sim (henc : EncLen enc) {st st' : St} {l : Layout.State} (ts : TSim num t₂ G Gt st l) (env : Env)
+theorem runTask_sim' (henc : EncLen enc) {st st' : St} {l : Layout.State} (ts : TSim num t₂ G Gt st l) (env : Env)
     (henv : env.paths.isEmpty = false) (task : Task) (lt : Layout.Task) (hrel : TaskRel num enc t₂ task lt)
     (hok : TaskOk st.seg.pending task) (h : runTask enc env st task = .ok (st', .ok)) :
     ∃ l', l.env.hasAll lt.deps = true ∧ Layout.rewrite l lt.addr lt.final = .ok l' ∧ TSim num t₂ G Gt st' l' ∧
-      st'.seg.pending = st.seg.pending ∧ cursor st' = cursor st := by
+      st'.seg.pending = st.seg.pending ∧ cursor st' = cursor st ∧ GenTask enc t₂ task := by
   have hsafe := (runTask_safe henc ts.good (by simpa using henv) task hok (fun hh => by cases hh)).2 _ _ h
   cases task with
   | globalCopy n l c => exact hrel.elim
@@ -161,8 +161,12 @@ theorem runTask_sim (henc : EncLen enc) {st st' : St} {l : Layout.State} (ts : T
                     simp only [Out.ok.injEq, Prod.mk.injEq] at hws
                     rw [← hws.1]; exact hp3
                 have hcurW := writeStmt_cursor ts.good.inv (by rw [hbl]; exact hpend) hws
+                have hgenT : GenTask enc t₂ (.instr i false) := fun tpl' args' t₁' c' hs' hn' hf' => by
+                  have hr := assemble_retry_tables_all hs' hn' i.st.addr tpl' args' i.st c' hf' false
+                  rw [hfa] at hr
+                  exact ⟨fs2, bytes, assemble_completed_loc true hr.symm, he⟩
                 refine ⟨l', hall, by rw [haddr, hfin]; exact q1,
-                  ⟨hsafe.1, q2, ts.loc, ts.nodef, by rw [q3']; exact ts.env, ts.lq, ts.gl⟩, hpend', hcurW⟩
+                  ⟨hsafe.1, q2, ts.loc, ts.nodef, by rw [q3']; exact ts.env, ts.lq, ts.gl⟩, hpend', hcurW, hgenT⟩
   | data d g =>
     obtain ⟨hg, hpl, haddr, hlen, a, t₁, n, hsub, hnd₁, hfirst, hdeps, hfinal⟩ := hrel
     subst hg
@@ -247,24 +251,37 @@ theorem runTask_sim (henc : EncLen enc) {st st' : St} {l : Layout.State} (ts : T
                       simp only [Out.ok.injEq, Prod.mk.injEq] at hws
                       rw [← hws.1]; exact hp3
                   have hcurW := writeStmt_cursor ts.good.inv (by rw [hbl]; exact hpend) hws
+                  have hgenT : GenTask enc t₂ (.data d false) := fun a' t₁' n' hs' hn' hf' => by
+                    have hr := data_retry_all hs' hn' hf'
+                    have hev'' : evalIn t₂ a' = .ok (.complete (.const v)) := by rw [← hr]; exact hev
+                    exact ⟨v, by simp only [constVal, hev''], hv.1, hv.2⟩
                   refine ⟨l', hall, by rw [haddr, hfin]; exact q1,
-                    ⟨hsafe.1, q2, ts.loc, ts.nodef, by rw [q3']; exact ts.env, ts.lq, ts.gl⟩, hpend', hcurW⟩
+                    ⟨hsafe.1, q2, ts.loc, ts.nodef, by rw [q3']; exact ts.env, ts.lq, ts.gl⟩, hpend', hcurW, hgenT⟩
               · rw [if_neg hv] at hw; simp at hw
             | _ => simp at hw
 
+theorem runTask_sim (henc : EncLen enc) {st st' : St} {l : Layout.State} (ts : TSim num t₂ G Gt st l) (env : Env)
+    (henv : env.paths.isEmpty = false) (task : Task) (lt : Layout.Task) (hrel : TaskRel num enc t₂ task lt)
+    (hok : TaskOk st.seg.pending task) (h : runTask enc env st task = .ok (st', .ok)) :
+    ∃ l', l.env.hasAll lt.deps = true ∧ Layout.rewrite l lt.addr lt.final = .ok l' ∧ TSim num t₂ G Gt st' l' ∧
+      st'.seg.pending = st.seg.pending ∧ cursor st' = cursor st := by
+  obtain ⟨l', h1, h2, h3, h4, h5, _⟩ := runTask_sim' henc ts env henv task lt hrel hok h
+  exact ⟨l', h1, h2, h3, h4, h5⟩
+
 /-! ## the local task loop -/
 
-theorem localRound_sim (henc : EncLen enc) (env : Env) (henv : env.paths.isEmpty = false) :
+theorem localRound_sim' (henc : EncLen enc) (env : Env) (henv : env.paths.isEmpty = false) :
     ∀ (ts : List Task) (lts : List Layout.Task) (st st' : St) (l : Layout.State) (res res' : Res),
       TSim num t₂ G Gt st l → TasksRel num enc t₂ ts lts → (∀ t ∈ ts, TaskOk st.seg.pending t) →
       localRound enc env ts st res = .ok (st', res') → st'.errors = [] →
-      ∃ l', Layout.runTasks l lts = .ok l' ∧ TSim num t₂ G Gt st' l' ∧ res' = res ∧ cursor st' = cursor st := by
+      ∃ l', Layout.runTasks l lts = .ok l' ∧ TSim num t₂ G Gt st' l' ∧ res' = res ∧ cursor st' = cursor st ∧
+        ∀ t ∈ ts, GenTask enc t₂ t := by
   intro ts
   induction ts with
   | nil =>
     intro lts st st' l res res' tsim hrel _ h _
     cases lts with
-    | nil => simp only [localRound] at h; cases h; exact ⟨l, rfl, tsim, rfl, rfl⟩
+    | nil => simp only [localRound] at h; cases h; exact ⟨l, rfl, tsim, rfl, rfl, fun _ hx => (by cases hx)⟩
     | cons u us => exact hrel.elim
   | cons t ts ih =>
     intro lts st st' l res res' tsim hrel hok h herr
@@ -284,10 +301,14 @@ theorem localRound_sim (henc : EncLen enc) (env : Env) (henv : env.paths.isEmpty
           have g := (localRound_grew ts st1 res st' res' h).1
           have herr1 : st1.errors = [] := by
             rw [herr] at g; exact List.eq_nil_of_length_eq_zero (by simpa using g)
-          obtain ⟨l1, h1, h2, h3, h4, h5⟩ := runTask_sim henc tsim env henv t u hr1 (hok t List.mem_cons_self) hrt
-          obtain ⟨l', f1, f2, f3, f4⟩ := ih us st1 st' l1 res res' h3 hr2
+          obtain ⟨l1, h1, h2, h3, h4, h5, h6⟩ := runTask_sim' henc tsim env henv t u hr1 (hok t List.mem_cons_self) hrt
+          obtain ⟨l', f1, f2, f3, f4, f5⟩ := ih us st1 st' l1 res res' h3 hr2
             (fun x hx => by rw [h4]; exact hok x (List.mem_cons_of_mem _ hx)) h herr
-          exact ⟨l', by simp only [Layout.runTasks, h1, if_true, h2]; exact f1, f2, f3, f4.trans h5⟩
+          exact ⟨l', by simp only [Layout.runTasks, h1, if_true, h2]; exact f1, f2, f3, f4.trans h5,
+            fun x hx => by
+              rcases List.mem_cons.mp hx with rfl | hx
+              · exact h6
+              · exact f5 x hx⟩
         | err lv =>
           exfalso
           have g1 := runTask_grew _ _ hrt
@@ -300,11 +321,12 @@ theorem localRound_sim (henc : EncLen enc) (env : Env) (henv : env.paths.isEmpty
               rw [herr] at g; exact List.eq_nil_of_length_eq_zero (by simpa using g)
             exact absurd (grew_nil g1 herr1).2 (by simp)
 
-theorem localLoop_sim (henc : EncLen enc) (env : Env) (henv : env.paths.isEmpty = false) (n : Nat) (ts : List Task)
+theorem localLoop_sim' (henc : EncLen enc) (env : Env) (henv : env.paths.isEmpty = false) (n : Nat) (ts : List Task)
     (lts : List Layout.Task) (st st' : St) (l : Layout.State) (res' : Res) (tsim : TSim num t₂ G Gt st l)
     (hrel : TasksRel num enc t₂ ts lts) (hok : ∀ t ∈ ts, TaskOk st.seg.pending t)
     (h : localLoop enc env (n + 2) ts st .ok = .ok (st', res')) (herr : st'.errors = []) :
-    ∃ l', Layout.runTasks l lts = .ok l' ∧ TSim num t₂ G Gt st' l' ∧ cursor st' = cursor st := by
+    ∃ l', Layout.runTasks l lts = .ok l' ∧ TSim num t₂ G Gt st' l' ∧ cursor st' = cursor st ∧
+      ∀ t ∈ ts, GenTask enc t₂ t := by
   rw [show n + 2 = (n + 1) + 1 from rfl, localLoop] at h
   split at h
   · rename_i hemp
@@ -312,7 +334,7 @@ theorem localLoop_sim (henc : EncLen enc) (env : Env) (henv : env.paths.isEmpty 
     have : ts = [] := List.isEmpty_iff.mp hemp
     subst this
     cases lts with
-    | nil => exact ⟨l, rfl, tsim, rfl⟩
+    | nil => exact ⟨l, rfl, tsim, rfl, fun _ hx => (by cases hx)⟩
     | cons u us => exact hrel.elim
   · cases hlr : localRound enc env ts st .ok with
     | stop r => rw [hlr] at h; cases h
@@ -331,7 +353,7 @@ theorem localLoop_sim (henc : EncLen enc) (env : Env) (henv : env.paths.isEmpty 
           · have g := (localLoop_grew _ _ _ _ _ _ h).1
             rw [herr] at g
             exact List.eq_nil_of_length_eq_zero (by simpa using g)
-        obtain ⟨l', f1, f2, f3, f4⟩ := localRound_sim henc env henv ts lts st st1 l .ok res1 tsim hrel hok hlr herr1
+        obtain ⟨l', f1, f2, f3, f4, f5⟩ := localRound_sim' henc env henv ts lts st st1 l .ok res1 tsim hrel hok hlr herr1
         have hn : new = [] := by have := f2.lq; rw [hnew] at this; cases this; rfl
         subst hn
         have heta : ({ st1 with localTasks := some [] } : St) = st1 := by
@@ -340,7 +362,15 @@ theorem localLoop_sim (henc : EncLen enc) (env : Env) (henv : env.paths.isEmpty 
         subst f3
         simp only [Res.aborts, Bool.false_eq_true, if_false, localLoop, List.isEmpty_nil, if_true] at h
         cases h
-        exact ⟨l', f1, f2, f4⟩
+        exact ⟨l', f1, f2, f4, f5⟩
+
+theorem localLoop_sim (henc : EncLen enc) (env : Env) (henv : env.paths.isEmpty = false) (n : Nat) (ts : List Task)
+    (lts : List Layout.Task) (st st' : St) (l : Layout.State) (res' : Res) (tsim : TSim num t₂ G Gt st l)
+    (hrel : TasksRel num enc t₂ ts lts) (hok : ∀ t ∈ ts, TaskOk st.seg.pending t)
+    (h : localLoop enc env (n + 2) ts st .ok = .ok (st', res')) (herr : st'.errors = []) :
+    ∃ l', Layout.runTasks l lts = .ok l' ∧ TSim num t₂ G Gt st' l' ∧ cursor st' = cursor st := by
+  obtain ⟨l', h1, h2, h3, _⟩ := localLoop_sim' henc env henv n ts lts st st' l res' tsim hrel hok h herr
+  exact ⟨l', h1, h2, h3⟩
 
 end
 
